@@ -14,7 +14,9 @@ pub mod c13;
 pub mod c14;
 pub mod c15;
 pub mod c16;
+pub mod c17;
+pub mod c18;
 
 pub fn all() -> Vec<&'static dyn Engine> {
-    vec![&c01::C01, &c02::C02, &c03::C03, &c05::C05, &c06::C06, &c07::C07, &c08::C08, &c09::C09, &c10::C10, &c13::C13, &c14::C14, &c15::C15, &c16::C16]
+    vec![&c01::C01, &c02::C02, &c03::C03, &c05::C05, &c06::C06, &c07::C07, &c08::C08, &c09::C09, &c10::C10, &c13::C13, &c14::C14, &c15::C15, &c16::C16, &c17::C17, &c18::C18]
 }
